@@ -45,8 +45,12 @@ def spec_engine(E, fn, spec, assume=()):
     """returns list of (final_state, ret, outs) where outs[i](n) reads n bytes of the i-th 'out' buffer"""
     st = E.new_state(); st.pc = list(assume); st.model = None
     args = []; outs = []
+    def norm(x):
+        if not is_sym(x): return x
+        v = z3.simplify(x)
+        return v.as_long() if z3.is_bv_value(v) else v
     for a in spec:
-        if a[0] == 'in': args.append(put(E, st, a[1], 8))
+        if a[0] == 'in': args.append(put(E, st, [norm(x) for x in a[1]], 8))
         elif a[0] in ('u32', 'i64', 'u64'): args.append(a[1])
         elif a[0] == 'out': p = buf(E, st, a[1] + 8); outs.append(p); args.append(p)
         elif a[0] == 'ptr0': args.append(0)
@@ -60,7 +64,12 @@ def spec_engine(E, fn, spec, assume=()):
     return res
 
 def spec_native(lib, fn, spec, restype=ctypes.c_uint):
-    assert all(not is_sym(x) for a in spec if a[0] == 'in' for x in a[1])
+    def conc(x):
+        if not is_sym(x): return x
+        v = z3.simplify(x)
+        assert z3.is_bv_value(v), 'symbolic value in a native call'
+        return v.as_long()
+    spec = [((a[0], [conc(x) for x in a[1]]) if a[0] == 'in' else ((a[0], conc(a[1])) if a[0] in ('u32', 'i64', 'u64') else a)) for a in spec]
     args = []; outs = []
     for a in spec:
         if a[0] == 'in': args.append(cbuf(list(a[1]) + [0] * 8))
